@@ -306,11 +306,11 @@ Hopen(const char *path, int acc_mode, int16 ndds)
                 HGOTO_ERROR(DFE_DENIED, FAIL);
 
             /* Replace file_rec->file with new file pointer and
-               close old one. */
-            if (HI_CLOSE(file_rec->file) == FAIL) {
-                HI_CLOSE(f);
-                HGOTO_ERROR(DFE_CANTCLOSE, FAIL);
-            }
+               close old one.  The old stream was open for reading only, so
+               nothing is lost if its close reports an error; the stream is
+               gone either way, and the record must not be left without one
+               (the ids that were open on the file go on using it). */
+            (void)HI_CLOSE(file_rec->file);
             file_rec->file      = f;
             file_rec->f_cur_off = 0;
             file_rec->last_op   = H4_OP_UNKNOWN;
